@@ -136,6 +136,15 @@ impl Cx {
                 _ => Err(format!("unsupported unary {}", ts(e))),
             },
             Expr::Binary(b) => self.binary(b, pres),
+            Expr::Cast(c) => {
+                // `node as *const Node<T>` and `ptr as usize`: the same number
+                let (t, ty) = self.expr(&c.expr, pres)?;
+                let target = ts(&c.ty).replace(' ', "");
+                match (&ty, target.as_str()) {
+                    (Ty::Addr, "*constNode<T>") | (Ty::Addr, "usize") => Ok((t, Ty::Addr)),
+                    _ => Err(format!("unsupported cast `{}`", ts(e))),
+                }
+            }
             Expr::Field(f) => {
                 if let Some(pl) = self.place(e, pres)? {
                     return self.read_place(&pl, pres);
@@ -146,6 +155,8 @@ impl Cx {
                 };
                 let (bt, bty) = self.expr(&f.base, pres)?;
                 match (&bty, fname.as_str()) {
+                    (Ty::AddrRange, "start") => Ok((format!("fst {}", paren(&bt)), Ty::Addr)),
+                    (Ty::AddrRange, "end") => Ok((format!("snd {}", paren(&bt)), Ty::Addr)),
                     (Ty::TravSt, "root") => Ok((format!("fst {}", paren(&bt)), Ty::NodeId)),
                     (Ty::TravSt, "next") => Ok((format!("snd {}", paren(&bt)), Ty::opt(Ty::Edge))),
                     (Ty::Range, "first") => Ok((format!("fst {}", paren(&bt)), Ty::NodeId)),
@@ -255,6 +266,17 @@ impl Cx {
                             _ => return Err(format!("comparison on {:?}", ty)),
                         };
                         Ok((format!("{} {} {}", f, paren(&a), paren(&c)), Ty::Bool))
+                    }
+                    BinOp::Div(_) if ty == Ty::Addr => {
+                        // (address difference) / size_of::<Node<T>>() : an index
+                        if r != "v_size" {
+                            return Err("division of an address by something other than size_of::<Node<T>>()".into());
+                        }
+                        Ok((format!("Z.to_nat (Z.div {} v_size)", paren(&l)), Ty::Nat))
+                    }
+                    BinOp::Sub(_) if ty == Ty::Addr => {
+                        let v = self.fresh_bind("z_", Code::Raw(format!("usub dbg {} {}", paren(&l), paren(&r))), pres);
+                        Ok((v, Ty::Addr))
                     }
                     BinOp::Sub(_) | BinOp::Add(_) => {
                         let op = if matches!(b.op, BinOp::Sub(_)) { "-" } else { "+" };
